@@ -115,13 +115,30 @@ Fixpoint range_count (rev : list N) (prev : N) : N :=
   | g :: r => (if g =? prev + 1 then 0 else 1) + range_count r g
   end.
 
+(* the map itself (for table[gid] below) *)
+Fixpoint tab_fill (t : list (N * Z)) (m : PositiveMap.t Z) : PositiveMap.t Z :=
+  match t with
+  | [] => m
+  | (gid, i) :: t' => tab_fill t' (PositiveMap.add (pkey gid) i m)
+  end.
+
+(* for i, gid := range rev { if j, ok := table[gid]; !ok || j != i { panic } }
+   (fixes/C08-coverage-duplicate-index.diff: every index is used exactly once) *)
+Fixpoint rev_check (rev : list N) (i : Z) (tm : PositiveMap.t Z) : bool :=
+  match rev with
+  | [] => true
+  | g :: r =>
+    (match PositiveMap.find (pkey g) tm with Some j => (j =? i)%Z | None => false end)
+      && rev_check r (i + 1)%Z tm
+  end.
+
 Record encinfo := { ei_rev : list N; ei_f1 : N; ei_f2 : N }.
 
 Definition M_cov_encinfo (t : list (N * Z)) : outcome encinfo :=
   let n := N.of_nat (length t) in
   m <- rev_fill t n (PositiveMap.empty N) ;;
   let rev := rev_list (length t) 0 m in
-  if strictly_inc rev then
+  if strictly_inc rev && rev_check rev 0 (tab_fill t (PositiveMap.empty Z)) then
     Ok {| ei_rev := rev; ei_f1 := 4 + 2 * n; ei_f2 := 4 + 6 * range_count rev 65535 |}
   else Panic.
 
@@ -187,3 +204,10 @@ Definition glyphs_ok (gl : list N) : bool := forallb (fun g => g <? 65536) gl.
 (* type invariants of the Go values: glyph.ID is 16 bits, a byte is 8 bits *)
 Definition keys_ok (t : list (N * Z)) : bool := forallb (fun p => fst p <? 65536) t.
 Definition bytes_lt (l : list N) : Prop := Forall (fun b => b < 256) l.
+
+(* strictly increasing, and above [prev] *)
+Fixpoint inc_from (prev : Z) (l : list N) : bool :=
+  match l with
+  | [] => true
+  | a :: tl => (prev <? Z.of_N a)%Z && inc_from (Z.of_N a) tl
+  end.
